@@ -302,9 +302,15 @@ impl<'data> FileLoader<'data> {
 
         let mut path_to_load_index = HashMap::new();
 
-        let mut initial_work = Vec::with_capacity(inputs.len());
+        let mut initial_work: Vec<OpenFileRequest> = Vec::with_capacity(inputs.len());
         for input in inputs {
             let path = input.path(args)?;
+            if let Some(&FileLoadIndex(existing)) = path_to_load_index.get(&path.absolute) {
+                // The file is only loaded once, at the position of its first mention. A shared
+                // object that is also named outside of --as-needed is needed unconditionally.
+                initial_work[existing].modifiers.as_needed &= input.modifiers.as_needed;
+                continue;
+            }
             path_to_load_index
                 .entry(path.absolute.clone())
                 .or_insert_with(|| {
